@@ -67,7 +67,27 @@ inductive Act
   | forceCloseDelay (us : Nat)
   | stopRead
   | startRead
+  /-- `setWriteCompleteCallback(cb)`: `k` names the callback installed (0 = an empty `std::function`) -/
+  | setWc (k : Nat)
+  /-- `setHighWaterMarkCallback(cb, mark)`: callback identity (0 = empty) and the new mark -/
+  | setHwm (k : Nat) (mark : Nat)
 deriving DecidableEq, Repr
+
+/-- what a notification functor carries of the user's callback: a COPY of the `std::function`, made when the
+functor was bound (the identity installed at that moment), or a REFERENCE to the connection's member, which is
+read only when the functor runs -/
+inductive Bound | val (k : Nat) | ref
+deriving DecidableEq, Repr
+
+/-- `std::bind(.., callback_member, ..)` according to how the source passes the member (`Gen.Conn.Capture`) -/
+def bindCb : Capture → Nat → Bound
+  | .byValue, k => .val k
+  | .byRef, _ => .ref
+
+/-- the callback the functor invokes when it runs; `cur` = the identity installed at that time -/
+def Bound.resolve : Bound → Nat → Nat
+  | .val k, _ => k
+  | .ref, cur => cur
 
 /-- functors in the loop's pending queue -/
 inductive Task
@@ -76,8 +96,8 @@ inductive Task
   | drainShutdownInLoop              -- queued by the drain path of `handleWrite`
   | forceCloseInLoop                 -- holds a reference
   | connectDestroyed                 -- holds a reference
-  | writeComplete                    -- holds a reference
-  | highWater (n : Nat)              -- holds a reference
+  | writeComplete (cb : Bound)       -- the user's callback as bound when the notification was scheduled
+  | highWater (cb : Bound) (n : Nat) -- the same, and the backlog computed at that moment
   | startReadInLoop | stopReadInLoop -- raw `this`
   | addDelayTimer (deadline : Nat)   -- `runAfter` from a foreign thread; weak reference inside
 deriving DecidableEq, Repr
@@ -87,8 +107,8 @@ written; `connectDestroyed` is bound by the owner with its `TcpConnectionPtr`, t
 close is a weak callback inside a timer) -/
 def Task.hold : Task → Hold
   | .connectDestroyed => .strong
-  | .writeComplete => wcHold
-  | .highWater _ => hwmHold
+  | .writeComplete _ => wcHold
+  | .highWater _ _ => hwmHold
   | .forceCloseInLoop => forceCloseHold
   | .shutdownInLoop => shutdownHold
   | .drainShutdownInLoop => drainShutdownHold
@@ -101,7 +121,10 @@ def Task.hold : Task → Hold
 def Task.strong (t : Task) : Bool := t.hold = .strong
 
 inductive Ev
-  | up | msg (readable : Nat) (hash : UInt64) | wc | hwm (n : Nat) | down | closeCb
+  | up | msg (readable : Nat) (hash : UInt64)
+  | wc (k : Nat)                -- the write-complete callback with identity `k` ran
+  | hwm (k : Nat) (n : Nat)     -- the high-water callback with identity `k` ran, argument `n`
+  | down | closeCb
   | destroyed
   | sysWrite (req : Nat) (res : WriteRes)
   | sysReadv (res : ReadRes)
@@ -121,8 +144,10 @@ structure Conn where
   outBuf : Bytes := []
   inBuf : Bytes := []
   mark : Nat := 64 * 1024 * 1024
-  hasWC : Bool := true
-  hasHWM : Bool := true
+  hasWC : Bool := true            -- `writeCompleteCallback_` is non-empty
+  hasHWM : Bool := true           -- `highWaterMarkCallback_` is non-empty
+  wcId : Nat := 1                 -- which callback `writeCompleteCallback_` holds (0 = none)
+  hwmId : Nat := 1                -- which callback `highWaterMarkCallback_` holds (0 = none)
   retrieveMax : Nat := 1 <<< 40   -- how much the message callback retrieves
   -- the loop
   pending : List Task := []
@@ -193,7 +218,7 @@ def enqueue (c : Conn) (t : Task) : Conn := { c with pending := c.pending ++ [t]
 def queueRemainder (c : Conn) (data : Bytes) (nwrote : Nat) (fault : Bool) : Conn :=
   if queueRest fault (data.length - nwrote) then
     let c1 : Conn := if hwmCross c.outBuf.length (data.length - nwrote) c.mark c.hasHWM
-      then enqueue c (.highWater (c.outBuf.length + (data.length - nwrote))) else c
+      then enqueue c (.highWater (bindCb hwmBind c.hwmId) (c.outBuf.length + (data.length - nwrote))) else c
     let c2 : Conn := { c1 with outBuf := c1.outBuf ++ data.drop nwrote }
     if sendEnablesWriting c2.ch.evWrite then enableWriting c2 else c2
   else if fault then { c with discarded := true } else c
@@ -202,7 +227,7 @@ def queueRemainder (c : Conn) (data : Bytes) (nwrote : Nat) (fault : Bool) : Con
 def sendDirect (c : Conn) (data : Bytes) : WriteRes → Conn
   | .took n =>
     let c1 : Conn := { c with wrote := c.wrote ++ data.take n }
-    let c2 : Conn := if sendWholeWC (data.length - n) c1.hasWC then enqueue c1 .writeComplete else c1
+    let c2 : Conn := if sendWholeWC (data.length - n) c1.hasWC then enqueue c1 (.writeComplete (bindCb wcBindSend c1.wcId)) else c1
     queueRemainder c2 data n false
   | .err e => queueRemainder c data 0 (decide (writeErrLogged e) && decide (writeErrFatal e))
 
@@ -255,6 +280,9 @@ def act (c : Conn) (foreign : Bool) : Act → Conn
     else c
   | .stopRead => handOff c foreign stopReadDispatch .stopReadInLoop stopReadInLoop
   | .startRead => handOff c foreign startReadDispatch .startReadInLoop startReadInLoop
+  -- plain assignments to the members (not thread safe: the harness calls them on the loop thread only)
+  | .setWc k => { c with hasWC := decide (k ≠ 0), wcId := k }
+  | .setHwm k m => { c with hasHWM := decide (k ≠ 0), hwmId := k, mark := m }
 
 def actLoop (c : Conn) (a : Act) : Conn := act c false a
 def actForeign (c : Conn) (a : Act) : Conn := act c true a
@@ -302,7 +330,7 @@ def handleRead (c : Conn) : Conn :=
 
 def afterDrain (c : Conn) : Conn :=
   let c1 := disableWriting c
-  let c2 : Conn := if drainWC c1.hasWC then enqueue c1 .writeComplete else c1
+  let c2 : Conn := if drainWC c1.hasWC then enqueue c1 (.writeComplete (bindCb wcBindDrain c.wcId)) else c1
   -- the deferred half-close: a direct call, or queued behind what is already pending
   if drainShutdown c2.st then
     handOff c2 false drainShutdownDispatch .drainShutdownInLoop shutdownInLoop
@@ -365,8 +393,8 @@ def runTask (c : Conn) (t : Task) : Conn :=
   | .drainShutdownInLoop => shutdownInLoop c
   | .forceCloseInLoop => if forceCloseInLoopActs c.st then handleClose c else c
   | .connectDestroyed => connectDestroyed c
-  | .writeComplete => callback c .wc .wc
-  | .highWater n => callback c .hwm (.hwm n)
+  | .writeComplete b => callback c .wc (.wc (b.resolve c.wcId))
+  | .highWater b n => callback c .hwm (.hwm (b.resolve c.hwmId) n)
   | .startReadInLoop => startReadInLoop c
   | .stopReadInLoop => stopReadInLoop c
   | .addDelayTimer d => { c with timers := c.timers ++ [d] }
